@@ -27,6 +27,32 @@ def report(R, viol, cases):
             R.violation(cl, "real application violates clause %s on %s" % (cl, json.dumps(cases[idx])[:6000]), cases[idx])
 
 
+def ghost_ledger_over_blocks(R, cases):
+    """Cumulative ledger over the whole ABCI run, kept by the check itself (never read from the
+    application's stored payment history): per payer and denomination, what was paid as fees by
+    admitted transactions vs. what end-of-block returns credited.  refunds <= payments, always."""
+    import re
+    paid, recv = {}, {}
+    for c in cases:
+        if c.get("kind") != "block":
+            continue
+        for t in c["txs"]:
+            if t["class"] in (0, 2, 4):
+                tx = t["tx"]
+                payer = tx.get("fee_payer") or tx["msgs"][0]["from"]
+                for coin in tx["fee"]:
+                    m = re.match(r"(-?\d+)(.*)$", coin)
+                    if m and int(m.group(1)) > 0:
+                        paid[(payer, m.group(2))] = paid.get((payer, m.group(2)), 0) + int(m.group(1))
+        for who, denom, x in (c.get("end_block_deltas") or []):
+            if who != "fee_collector" and int(x) > 0:
+                recv[(who, denom)] = recv.get((who, denom), 0) + int(x)
+                if recv[(who, denom)] > paid.get((who, denom), 0):
+                    R.violation("refund_le_paid:cumulative-over-blocks",
+                                "by height %s account %s has been returned %d%s in total but paid only %d%s in fees" % (c.get("height"), who, recv[(who, denom)], denom, paid.get((who, denom), 0), denom), c)
+                    return
+
+
 def run(R):
     R.trusted += ["translator harness/cmd/gen_ante (go/ast over app/ante/ante.go, app/app.go: decorator order, loop shapes, keeper handed to the fee deduction, post handler)",
                   "cosmos-sdk baseapp runTx cache layering, x/auth DeductFeeDecorator, x/bank SendCoins are MODELLED (Model/Fees.v run_tx, deduct, bank_send) and validated by the ABCI-level differential run, not verified",
@@ -63,11 +89,12 @@ def run(R):
         R.oblige("correspondence: model = real application (DeliverTx class, balance deltas, signer accounts, execution list, marks, end-block, pay-back) on %d cases" % total,
                  not mism, "first mismatching cases: " + json.dumps([cases[i] for i in mism[:3]])[:6000])
         report(R, viol, cases)
+        ghost_ledger_over_blocks(R, cases)
         R.samples = [cases[0], cases[len(cases) // 3], cases[-1]]
         dist = json.load(open(os.path.join(out, "dist.json")))
         ntx = sum(v for k, v in dist["by_kind"].items() if k.startswith("tx:class"))
         R.coverage.update({"traces_validated_against_impl": total, "input_distribution": dist, "transactions_delivered": ntx,
-                           "rule": "a case is one block (random token registry / fee properties / execution-fee table, 1-3 signed transactions with a failing message at a random position) or one pay-back call over a random payment history"})
+                           "rule": "a case is one block (random token registry / fee properties / execution-fee table / custody records, 1-3 signed transactions incl. Ethereum native sends, explicit fee payers, zero gas, with a failing message at a random position), one pay-back call over a random payment history, or one whole payment/refund/execution/block-end history of 2-3 payers on the real feeprocessing keeper judged by the checker's own ghost ledger"})
     if R.broken and not R.violations:
         for s in range(100, 104):
             o2 = observe(R, 1200, seed=R.seed + s)
